@@ -127,8 +127,8 @@ def run(ctx: Ctx) -> None:
     sub = Ctx(prog, ctx.prop, ctx.tier)
     ord_pack(sub, 'C02.R3')
     for o in sub.obligations:
-        if o.construct in ('IdManager.prepare:free-first', 'IdManager.prepare:indices', 'expressions_names_indices'):
-            ctx.add('C02.R3', o.construct, o.ok, (o.file, o.line), o.message, o.detail)
+        # entry i of a derivative belongs to name i: every positional sequence of parameters follows the sorted names
+        ctx.add('C02.R3', o.construct, o.ok, (o.file, o.line), o.message, o.detail)
     # the ids by which the engine indexes derivatives are the ones written in the records of the parameters
     from . import c01
 
